@@ -374,6 +374,10 @@ CORPUS_DIST = [
                         list(range(27))),
 ]
 CORPUS_RUN = [
+    # colours with fewer cells than workers: a worker with an empty share must still do the colour's fence handshake
+    "run " + path_input(4, 3, 5) + " 1 1 2 71",
+    "run " + path_input(4, 4, 7) + " 1 0 3 73",
+    "run " + fmt_input(4, 3, 6, [[0, 1], [0, 2], [0, 3], [4, 5], [3, 4]], [0, 1, 2, 3, 4]) + " 1 1 2 79",
     # error path: the first job's task throws (assemble / scatter / finish / combine), the following jobs are normal
     "run " + path_input(2, 3, 12) + " 1 1 3 43 1 9",
     "run " + path_input(2, 3, 12) + " 1 1 2 47 2 4",
@@ -754,6 +758,19 @@ def describe_trace(case):
                 keys.append("task-throws-in:" + {1: "assemble", 2: "scatter", 3: "finish", 4: "combine"}[parse_trace.fail[0]])
                 if any(k == 12 for r in runs for (k, t, a) in r[5]):
                     keys.append("okay=false-cascaded-through-a-fence-wait")
+            if s == 4 and nw >= 2:
+                # a colour with fewer cells than workers: some worker has an EMPTY share but still does the handshake
+                for r in runs:
+                    rounds, cur = [], None
+                    for (k, t, a) in r[5]:
+                        if k == 0 and t == 0 and a == 0:
+                            cur = set()
+                            rounds.append(cur)
+                        elif k == 3 and cur is not None:
+                            cur.add(t)
+                    if any(len(x) < nw for x in rounds):
+                        keys.append("colour-with-fewer-cells-than-workers")
+                        break
             if any(k == 14 and a == 1 for r in runs for (k, t, a) in r[5]):
                 keys.append("combine-under-mutex-observed")
             if any(blocked_waits(r[5]) for r in runs):
